@@ -2190,13 +2190,70 @@ func ruleUnifyOrder(c *Ctx) {
 				}
 				return false
 			}
+			// … and it is the span of the very edit that goes: the X span (context lives in X) of the last element
+			// of this list when the last is dropped, of the first when the first is
+			wrongEdit := ""
+			var spanOf func(v ssa.Value, d int) (ssa.Value, *types.Var)
+			spanOf = func(v ssa.Value, d int) (ssa.Value, *types.Var) {
+				if d > 4 {
+					return nil, nil
+				}
+				if ln, ok := isBuiltinCall(v, "len"); ok {
+					if b4, f4 := loadedField(ln.Call.Args[0]); isSpanField(f4) {
+						return b4, f4
+					}
+					return nil, nil
+				}
+				if bo, ok := v.(*ssa.BinOp); ok && (bo.Op == token.ADD || bo.Op == token.SUB) {
+					if b4, f4 := spanOf(bo.X, d+1); f4 != nil {
+						return b4, f4
+					}
+					return spanOf(bo.Y, d+1)
+				}
+				return nil, nil
+			}
 			for _, cm := range cmpsAt(st.Block()) {
 				switch cm.Op {
 				case token.GEQ, token.GTR, token.LEQ, token.LSS, token.EQL:
 					if mentionsSpanLen(cm.X, 0) || mentionsSpanLen(cm.Y, 0) {
 						justified = "a dominating test on the length of the edit's span decides it"
+						eb, ef := spanOf(cm.X, 0)
+						if ef == nil {
+							eb, ef = spanOf(cm.Y, 0)
+						}
+						if ef != nil {
+							if ef.Name() != "X" {
+								wrongEdit = "the test that decides it measures the ." + ef.Name() + " span; the context lines of an Emit edit are its .X span"
+							}
+							// where the tested edit comes from
+							var lv []ssa.Value
+							phiLeaves(eb, nil, map[ssa.Value]bool{}, &lv)
+							for _, l := range lv {
+								call, ok := l.(*ssa.Call)
+								if !ok || len(call.Call.Args) != 2 {
+									continue
+								}
+								if cal := call.Call.StaticCallee(); cal == nil || origin(cal).Name() != "PtrAt" {
+									continue
+								}
+								k, isK := constInt(call.Call.Args[1])
+								lb, lf := loadedField(call.Call.Args[0])
+								if !isK || lf == nil || !sameField(lf, listF) {
+									continue
+								}
+								if sym(lb) != sym(fa.X) {
+									wrongEdit = "the test that decides it measures an edit of another chunk (" + ksym(lb) + "), not of the chunk whose list is cut (" + ksym(fa.X) + ")"
+								} else if (dropLast && k != -1) || (dropFirst && k != 0) {
+									wrongEdit = fmt.Sprintf("the test that decides it measures the edit at position %d of the list, not the %s one, which is the one removed", k, what)
+								}
+							}
+						}
 					}
 				}
+			}
+			if wrongEdit != "" {
+				c.bad("R-DROP-GUARDED", key, st.Pos(), "the "+what+" edit of a chunk is removed, but "+wrongEdit+": the decision is made on the wrong lines")
+				return
 			}
 			if justified == "" {
 				allInstrs(fn, func(in2 ssa.Instruction) {
@@ -2622,7 +2679,7 @@ func ruleMdiffPairs(c *Ctx) {
 					return
 				}
 				b0, f0 := loadedField(ap.Call.Args[0])
-				_, f1 := loadedField(ap.Call.Args[1])
+				b1, f1 := loadedField(ap.Call.Args[1])
 				if !isSpan(f0) || !isSpan(f1) {
 					return
 				}
@@ -2630,6 +2687,12 @@ func ruleMdiffPairs(c *Ctx) {
 				c.sawFn(fnName(fn))
 				key := fmt.Sprintf("%s:join #%d", fnName(fn), n)
 				var probs []string
+				// what is appended is the neighbour's span of the same kind: another edit, the same field
+				if sym(b1) == sym(b0) {
+					probs = append(probs, "the span is extended by a span of the same edit (its own lines again), not by the neighbouring edit's")
+				} else if !sameField(f1, f0) {
+					probs = append(probs, "the span is extended by the neighbour's ."+f1.Name()+" span, not its ."+f0.Name()+" span (context lines live in one span only)")
+				}
 				if !(sameField(f0, df) && (b0 == fa.X || sym(b0) == sym(fa.X))) {
 					probs = append(probs, "the span stored into is not the one being extended: the neighbour's lines come first and the lines of this edit after them (context in the wrong order)")
 				}
